@@ -56,10 +56,17 @@ def scenarios():
     add("raw-aws", ("raw", b"config get cluster", AWS_TOKEN),
         b"CONFIG cluster 0 47\r\n1\nh1|10.0.0.1|11211 h2|10.0.0.2|11211\n\r\nEND\r\n")
     add("raw-aws-decoy", ("raw", b"config get cluster", AWS_TOKEN), b"CONFIG\n\r\nEN\n\r\nEND\r\n")
+    for total in (4096, 8192, 12288, 8192 + 100):
+        for tok in (b"\r\n", AWS_TOKEN):
+            body = bytes(65 + (i * 11) % 26 for i in range(total - len(tok)))
+            add(f"raw-long-{total}-{len(tok)}", ("raw", b"big", tok), body + tok)
     for size in (4094, 4095, 4096, 4097, 4098, 8190, 8192, 8194):
         d = bytes((i * 7 + 13) % 256 for i in range(size))
         add(f"get-{size}", ("get", "k"), v(b"k", d) + b"END\r\n")
     return S
+
+
+JUNK_AFTER_UNIT = {"raw-1", "raw-2tok-inside", "garbage", "error", "client-error", "server-error"}
 
 
 def call(client, op):
@@ -113,6 +120,14 @@ def segmentations(ctx, n, big):
             yield c
         yield tuple(range(4096, n, 4096))
         yield tuple(range(1, n, 1000))
+        # the LAST delivered piece has exactly the receive size
+        for lastn in (4096, 8192):
+            if n - lastn > 0:
+                yield (n - lastn,)
+                if n - lastn > 100:
+                    yield (100, n - lastn)
+            if n - lastn - 4096 > 0:
+                yield (n - lastn - 4096, n - lastn)
         return
     for c in pos:
         yield (c,)
@@ -264,7 +279,11 @@ def main(argv):
                 cnt += 1
                 ctx.case((name, cuts, ei), nontrivial=len(cuts) >= 1,
                          sample={"scenario": name, "cuts": list(cuts), "eintr_gaps": list(ei), "result": repr(got)[:80]} if (cnt == 7 and len(ctx.samples) < 4) else None)
-                if got != one:   # only the call's result is the property's subject (bytes after the reply unit are the scenario's junk)
+                if got == one and name not in JUNK_AFTER_UNIT and extra != extra1:
+                    ctx.violation("the call returns the same value but leaves reply bytes unread (or blocks) depending on the segmentation",
+                                  {"scenario": name, "op": repr(op)[:80], "cuts": list(cuts)[:20], "eintr_gaps": list(ei), "would_block,leftover": extra,
+                                   "one_piece would_block,leftover": extra1}, tags=["scenario:" + name, "op:" + op[0], "leftover"])
+                if got != one:   # (bytes after the reply unit are the scenario's junk: only the result is compared there)
                     tags = ["scenario:" + name, "op:" + op[0]]
                     ctx.violation("result differs from the one-piece result",
                                   {"scenario": name, "op": repr(op)[:80], "reply": hx(reply[:200]), "cuts": list(cuts)[:20], "eintr_gaps": list(ei),
